@@ -16,6 +16,17 @@ Module NSort := Sort NOrder.
 Module NS := MSetAVL.Make N_as_OT.
 
 Definition nrange (n : nat) : list N := map N.of_nat (seq 0 n).
+(* the same list built with a binary counter (N.of_nat on every element makes the executable model quadratic) *)
+Fixpoint nrange_from (start : N) (n : nat) : list N :=
+  match n with O => [] | S m => start :: nrange_from (N.succ start) m end.
+Definition nrange_fast (n : nat) : list N := nrange_from 0 n.
+Lemma nrange_from_eq n : forall a, nrange_from (N.of_nat a) n = map N.of_nat (seq a n).
+Proof.
+  induction n as [|n IH]; intros a; cbn [nrange_from seq map]; [reflexivity|].
+  f_equal. rewrite <- Nat2N.inj_succ. apply IH.
+Qed.
+Lemma nrange_fast_eq n : nrange_fast n = nrange n.
+Proof. unfold nrange_fast, nrange. apply (nrange_from_eq n 0). Qed.
 
 Section PosMap.
 Variable k : nat.
@@ -25,7 +36,7 @@ Definition cmin (x : N) : N := N.min x (rev_comp k x).
 Definition canonb (x : N) : bool := x <=? rev_comp k x.
 
 (* model of the Rust function *)
-Definition min_mer_set : NS.t := fold_left (fun s x => NS.add (cmin x) s) (nrange size) NS.empty.
+Definition min_mer_set : NS.t := fold_left (fun s x => NS.add (cmin x) s) (nrange_fast size) NS.empty.
 Definition min_mer_vec : list N := NSort.sort (NS.elements min_mer_set).
 Definition kcount : nat := NS.cardinal min_mer_set.
 
@@ -52,7 +63,7 @@ Qed.
 
 Lemma set_spec y : NS.In y min_mer_set <-> y < 4 ^ N.of_nat k /\ canonb y = true.
 Proof.
-  unfold min_mer_set. rewrite fold_add_in. split.
+  unfold min_mer_set. rewrite nrange_fast_eq, fold_add_in. split.
   - intros [H|[x [Hx ->]]]; [exfalso; revert H; apply NS.empty_spec|].
     apply in_range_lt in Hx. unfold cmin, canonb.
     pose proof (rev_comp_lt k x ltac:(lia) Hx) as Hr.
